@@ -242,81 +242,81 @@ def buildSubs (tbl : Schema) (t : Nat) (T : TypeDef) : List Stmt → Partial →
     | .ok st => buildSubs tbl t T rest st
 end
 
-/-! ### `Modules.Parse` after the generic parser: build every top-level statement and `add` it -/
+/-! ### `Modules.Parse` after the generic parser: build every top-level statement, then `add` each
+
+The code modelled (after commit 8f4df12, which made `Parse` atomic) first builds *every* top-level
+statement and only then registers the nodes one by one.  What `Modules.add` does when module names
+collide (duplicate detection, revisions rebinding the bare name) is the registry's business
+(property C13) and changes independently of the builder; it enters here as an oracle `dup` — "given
+what was added so far, is this one refused as a duplicate" — and every theorem holds for all
+oracles.  The driver runs with the oracle that never refuses; the correspondence inputs use
+distinct module names. -/
 
 def kwModule : Bytes := [109, 111, 100, 117, 108, 101]                       -- "module"
 def kwSubmodule : Bytes := [115, 117, 98, 109, 111, 100, 117, 108, 101]      -- "submodule"
-def kwRevision : Bytes := [114, 101, 118, 105, 115, 105, 111, 110]           -- "revision"
-
-/-- Go's `<` on strings: bytewise lexicographic. -/
-def bytesLt : Bytes → Bytes → Bool
-  | [], [] => false
-  | [], _ :: _ => true
-  | _ :: _, [] => false
-  | a :: as, b :: bs => if a < b then true else if b < a then false else bytesLt as bs
 
 /-- `n.Kind()`: the type's constant, except where probing found it to depend on a field being set
-(`Module.Kind()` is `submodule` iff `BelongsTo != nil`). -/
+(`Module.Kind()` is `submodule` iff `BelongsTo != nil`).  `a.fields` always has one entry per struct
+field, so the default of `getD` is never used on a built node. -/
 def nodeKind (T : TypeDef) (a : ANode) : Nat :=
   match T.kindIf.find? (fun (i, _) => !(a.fields.getD i []).isEmpty) with
   | some (_, k) => k
   | none => T.kind0
 
-/-- The children a node holds under the field tagged `k`. -/
-def childrenOf (T : TypeDef) (a : ANode) (k : Nat) : List ANode :=
-  match T.fields.findIdx? (fun f => f.kind.isSub && f.tag == k) with
-  | some i => a.fields.getD i []
-  | none => []
-
-/-- `Module.Current()`: the greatest revision name. -/
-def current (names : List Bytes) : Bytes :=
-  names.foldl (fun rev r => if bytesLt rev r then r else rev) []
-
-/-- `Module.FullName()` -/
-def fullName (tbl : Schema) (T : TypeDef) (a : ANode) : Bytes :=
-  let revs := match tbl.kwId kwRevision with
-    | some k => (childrenOf T a k).map (·.name)
-    | none => []
-  let rev := current revs
-  if rev.isEmpty then a.name else a.name ++ [64] ++ rev
-
-/-- A module added to `Modules.Modules` (`isSub = false`) or `Modules.SubModules`. -/
+/-- A node handed to `Modules.add` that landed in `Modules.Modules` (`isSub = false`) or
+`Modules.SubModules`. -/
 structure TopMod where
   isSub : Bool
-  fullName : Bytes
   node : ANode
   deriving Inhabited
 
-/-- `buildASTWithTypeDict` + `Modules.add` for one top-level statement. -/
-def addTop (tbl : Schema) (mods : List TopMod) (s : Stmt) : Except Err (List TopMod) :=
-  match build tbl s none with
-  | .error e => .error e
-  | .ok a =>
-    match tbl.types[a.ty]? with
-    | none => .error crash
-    | some T =>
-      -- v.Interface().(Node)
-      if !T.isNode then .error crash else
-      let kind := tbl.kwName (nodeKind T a)
-      let isSub : Option Bool :=
-        if kind == some kwModule then some false
-        else if kind == some kwSubmodule then some true
-        else none
-      match isSub with
-      | none => .error ⟨.notModule, none⟩
-      | some isSub =>
-        -- mod := n.(*Module)
-        if a.ty ≠ tbl.moduleTy then .error crash else
-        let fn := fullName tbl T a
-        if mods.any (fun m => m.isSub == isSub && m.fullName == fn) then .error ⟨.duplicate, none⟩
-        else .ok (mods ++ [⟨isSub, fn, a⟩])
+/-- First loop of `Modules.Parse`: `buildASTWithTypeDict` for every statement, in order. -/
+def buildAll (tbl : Schema) : List Stmt → Except Err (List ANode)
+  | [] => .ok []
+  | s :: rest =>
+    match build tbl s none with
+    | .error e => .error e
+    | .ok a =>
+      match tbl.types[a.ty]? with
+      | none => .error crash
+      | some T =>
+        -- v.Interface().(Node)
+        if !T.isNode then .error crash else
+        match buildAll tbl rest with
+        | .error e => .error e
+        | .ok as => .ok (a :: as)
+
+/-- `Modules.add` for one node. -/
+def addTop (tbl : Schema) (dup : List TopMod → TopMod → Bool) (mods : List TopMod) (a : ANode) :
+    Except Err (List TopMod) :=
+  match tbl.types[a.ty]? with
+  | none => .error crash
+  | some T =>
+    let kind := tbl.kwName (nodeKind T a)
+    let isSub : Option Bool :=
+      if kind == some kwModule then some false
+      else if kind == some kwSubmodule then some true
+      else none
+    match isSub with
+    | none => .error ⟨.notModule, none⟩
+    | some isSub =>
+      -- mod := n.(*Module)
+      if a.ty ≠ tbl.moduleTy then .error crash else
+      if dup mods ⟨isSub, a⟩ then .error ⟨.duplicate, none⟩
+      else .ok (mods ++ [⟨isSub, a⟩])
+
+/-- Second loop of `Modules.Parse`. -/
+def addAll (tbl : Schema) (dup : List TopMod → TopMod → Bool) : List ANode → List TopMod → Except Err (List TopMod)
+  | [], mods => .ok mods
+  | a :: rest, mods =>
+    match addTop tbl dup mods a with
+    | .error e => .error e
+    | .ok mods => addAll tbl dup rest mods
 
 /-- `Modules.Parse` on the statements the generic parser returned, for a fresh `Modules`. -/
-def parseTop (tbl : Schema) : List Stmt → List TopMod → Except Err (List TopMod)
-  | [], mods => .ok mods
-  | s :: rest, mods =>
-    match addTop tbl mods s with
-    | .error e => .error e
-    | .ok mods => parseTop tbl rest mods
+def parseTop (tbl : Schema) (dup : List TopMod → TopMod → Bool) (ss : List Stmt) : Except Err (List TopMod) :=
+  match buildAll tbl ss with
+  | .error e => .error e
+  | .ok nodes => addAll tbl dup nodes []
 
 end Goyang.Model.Ast
